@@ -9,7 +9,8 @@
 (***************************************************************************)
 EXTENDS Integers, Sequences, FiniteSets, TLC, Json
 
-CONSTANTS MaxN, MaxBS, MaxK, StrictFull, HalveFloor
+CONSTANTS MaxN, MaxBS, MaxK, StrictFull, HalveFloor,
+          ShortOnly    \* TRUE: only padded batching of datasets smaller than the batch size (the bucket rule on its own, large sizes)
 
 VARIABLES n, bs, k, mode, drop,    \* the input, chosen in Init
           phase, high, low, cnt,   \* the bucket loop
@@ -21,6 +22,7 @@ vars == <<n, bs, k, mode, drop, phase, high, low, cnt, fbs, start, out>>
 Init == /\ n \in 0..MaxN /\ bs \in 1..MaxBS /\ k \in 1..MaxK
         /\ mode \in {"batch", "padded"} /\ drop \in BOOLEAN
         /\ (mode = "padded" => ~drop) /\ (mode = "batch" => k = 1)
+        /\ (ShortOnly => (mode = "padded" /\ n < bs))
         /\ phase = IF mode = "padded" THEN "pick" ELSE "slice"
         /\ high = 0 /\ low = 0 /\ cnt = 0 /\ fbs = 0 /\ start = 0 /\ out = <<>>
 
